@@ -13,6 +13,15 @@ PENDING = "check not built yet in this round (see DESIGN.md §10 build order); n
 
 exec(open(os.path.join(os.path.dirname(__file__), "claims.py")).read())
 
+# hook commits: every commit in /repo whose subject starts with "verif:" (falls back to the list in claims.py)
+try:
+    import subprocess
+    _hs = subprocess.run(["git", "-C", "/repo", "log", "--format=%h", "--grep=^verif:", "--reverse"], capture_output=True, text=True).stdout.split()
+    if _hs:
+        HOOK_COMMITS = _hs
+except Exception:
+    pass
+
 ids = ["C%02d" % i for i in range(1, 21)]
 checks = []
 na = []
